@@ -240,6 +240,10 @@ class FunctionVC:
                 return src
         if hasattr(_builtins, name):
             return VConc(getattr(_builtins, name))
+        if I.spec_mode:
+            # an unknown name in a SPECIFICATION is an error of the contract, never behaviour of the
+            # program under verification
+            raise Unsupported('specification refers to an unknown name %r' % name)
         if self.c.kind == 'K3':
             # a bare name the generated module does not define: Python raises NameError
             from .interp import Raised as R
@@ -545,6 +549,15 @@ class FunctionVC:
                     # about the rest, and the postconditions must be about this prefix only
                     body = [s_ for s_ in body if not (isinstance(s_, ast.Expr) and
                                                       isinstance(s_.value, ast.Constant))][:npre]
+                rng = c.ghost.get('stmt_range')
+                if rng:
+                    # BLOCK contract: statements [a, b) of the body (docstring not counted), started
+                    # in a state where the locals assigned earlier hold arbitrary values of the types
+                    # the contract declares (`block_locals`); nothing is claimed about the rest
+                    body = [s_ for s_ in body if not (isinstance(s_, ast.Expr) and
+                                                      isinstance(s_.value, ast.Constant))][rng[0]:rng[1]]
+                    for n_, t_ in c.ghost.get('block_locals', {}).items():
+                        I.env[n_] = fresh(parse_ty(t_), n_)
                 I.exec_block(body)
                 result = NONE
             except Returned as r:
